@@ -2101,7 +2101,13 @@ class CatchExceptionDataset(Dataset):
         catched_count = 0
         total_count = 0
         if with_key:
-            for k in input_dataset.keys():
+            try:
+                keys = input_dataset.keys()
+            except NotImplementedError:
+                # No keys, no items. Use the signal that `items()` and
+                # `from_dataset` understand.
+                raise _ItemsNotDefined(self.__class__.__name__) from None
+            for k in keys:
                 total_count += 1
                 try:
                     yield k, input_dataset[k]
@@ -2359,7 +2365,10 @@ class ReShuffleDataset(Dataset):
 
     def __iter__(self, with_key=False):
         if with_key:
-            keys = self.input_dataset.keys()
+            try:
+                keys = self.input_dataset.keys()
+            except NotImplementedError:
+                raise _ItemsNotDefined(self.__class__.__name__) from None
             for idx in self.permutation:
                 k = keys[idx]
                 yield k, self.input_dataset[idx]
